@@ -37,6 +37,10 @@ META = {
                 text="contracts: part proved, part bounded. Proved for all strings / all values of the sanitised types: _should_desanitize is total and true exactly for the documented patterns, _desanitize_attrs_nc never raises and keeps or decodes each attribute. Bounded: type(m).deserialize(codec(m.serialize())) equals m (params, components, scores, transform, inverse_transform, predict) for 15 model classes x structures (DataArray, NaN masks, Dataset, lists incl. 11 items, MultiIndex) x user attribute dictionaries x three codecs x placeholders x before/after compute/transform, plus serialising a model after a rotator was fitted on it.",
                 note="assumed: literal_eval contract; DataTree/xarray internals only exercised (not modelled); no netCDF/zarr engine installed so file I/O itself is out of reach; bounded: 73 (quick) / ~720 (thorough) round trips",
                 ref="5/C13"),
+    "C14": dict(level="other", technique="contract-based deductive verification: Hoare loop rule (mechanical AST rewrite of the one loop) on the real GenericListTransformer.fit for every list length and pre-state + effect contracts (no mutation of caller-/model-owned arrays) read off the symbolic traces of EOF._fit_algorithm and EOFRotator._fit_algorithm; z3; bounded random call sequences as labelled stand-in",
+                text="contracts: part proved, part bounded. Proved: after fit the per-input transformer list has exactly one element per input, all created by this call, element i fitted on input i (all list lengths, any earlier state); the EOF fit does not mutate its input matrix; the EOF rotator fit does not rename, re-attribute or modify in place any array of the base model and leaves its results and labels as they were. Bounded: random sequences over {fit(D_i), transform(D_j), inverse_transform, components, scores, compute, serialize, rotator.fit, bootstrapper.fit} on one object vs a fresh model, for EOF/ComplexEOF/SparsePCA/POP/MCA/CPCCA; user inputs compared with deep copies.",
+                note="assumed: transformer classes are represented by a recording stub in the loop-rule proof; termination not proved; observational purity of queries and cross-set/bootstrapper effects only bounded; bounded: 59 (quick) / ~300 (thorough) sequences",
+                ref="5/C14"),
 }
 NA_REASON = "no check registered yet in this snapshot of /verif (build in progress; see DESIGN.md section 5 for the plan)"
 
